@@ -147,6 +147,19 @@ let () =
            Buffer.add_string buf (Printf.sprintf "(k c0 i%d q%d q%d)" (int_of_n v) (List.length rest) (int_of_n (N.of_nat eo)))
          | _ -> Buffer.add_string buf "(k c2)");
         flush_line ()
+      | ["N"; which; hex] ->
+        let b = bytes_of_hex hex in
+        (match which with
+         | "d" -> (match parse_u8_digit_lib b with
+                   | Ok (v, rest) -> Buffer.add_string buf (Printf.sprintf "(k c0 i%d q%d)" (int_of_n v) (List.length rest))
+                   | _ -> Buffer.add_string buf "(k c2)")
+         | "x" -> (match hex_u32_nom b with
+                   | Ok (v, rest) -> Buffer.add_string buf (Printf.sprintf "(k c0 i%d q%d)" (int_of_n v) (List.length rest))
+                   | _ -> Buffer.add_string buf "(k c2)")
+         | _ -> (match from_str_u8 b with
+                 | Some v -> Buffer.add_string buf (Printf.sprintf "(k c0 i%d)" (int_of_n v))
+                 | None -> Buffer.add_string buf "(k c2)"));
+        flush_line ()
       | [""] | [] -> ()
       | _ -> failwith ("bad case line: " ^ line)
     done
